@@ -53,6 +53,16 @@ def check_signature(rep, prog):
                   "output '%s' is the result of %s" % (key, fn), PD + ".get_signature", "out[%r] = ..." % key, "output key %r is not produced by %s" % (key, fn))
 
 
+def _fails(t, env):
+    try:
+        evaluate(t, env)
+        return False
+    except CannotEval:
+        raise
+    except Exception:
+        return True
+
+
 def check_lookups(rep, prog):
     """every subscript chain into the chip data uses lower-cased hex keys / str() numbers and has a KeyError fallback"""
     rule = "C20.R4.lookup-discipline"
@@ -85,13 +95,57 @@ def check_lookups(rep, prog):
         covered = all((ch.op != "getitem" and len(ch.args) >= 3) or any(ch in list(walk(t.b)) for t in tops) for ch in chains) if chains else True
         rep.check(covered and bool(chains), rule, "%s: every chip-data lookup has a fallback to the raw numbers" % fn, PD + "." + fn, "except KeyError",
                   "%s has a chip-data lookup without a fallback: missing data raises instead of showing the raw numbers" % fn)
-    # register name and register address fall back independently: a register whose instance has no address entry keeps its name
+    # register name and register address fall back independently: a register whose instance has no address entry keeps its
+    # name (and the other way round) - decided by running the look-up summary on sample chip data of every degree of
+    # completeness, a failing look-up taking the handler's alternative
     if len(rgi) == 2:
-        ex = [{x for x in walk(i[1]) if isinstance(x, Sym) and x.kind == "exc"} for i in rgi]
-        rep.check(bool(ex[0]) and bool(ex[1]) and not (ex[0] & ex[1]), rule, "get_reg_data: name and address look-ups have separate fallbacks",
-                  PD + ".get_reg_data", "except KeyError", "the register name and the register address are looked up under one "
-                  "try/except: when only the address of this instance is missing the known register name is replaced by the raw "
-                  "id/instance text as well")
+        bad = None
+        full = {"20da": {"registers": {"abc": ["REG_NAME", {"1": "0x800F001A"}], "def": ["ONLY_NAME", {}], "0a0": [None, {"1": "1f"}]}, "other": {}}}
+        datas = [full, {}, {"20da": {}}, {"20da": {"registers": {}}}, {"20da": {"registers": {"abc": ["N2", {"2": "0x10"}]}}}]
+        try:
+            for data_ in datas:
+                for mm, rr, ii in (("20DA", "ABC", 1), ("20da", "abc", 2), ("20DA", "DEF", 1), ("20DA", "FFF", 1), ("1234", "ABC", 1)):
+                    env = pelx.with_heap(I, {CD: data_, m: mm, rid: rr, inst: ii})
+                    # which handlers run: every try's flag starts out false; whenever computing a result fails the way a missing
+                    # key does, the innermost try that result still counts on is the one that caught it.  Both results share the
+                    # flags, as the code shares the try statements.
+                    terms_ = (rgi[0][1], rgi[1][1])
+                    flags = []
+                    for t_ in terms_:
+                        for x in walk(t_):
+                            if isinstance(x, Sym) and x.kind == "exc" and x not in flags:
+                                flags.append(x)
+                    for x in flags:
+                        env[x] = False
+                    got = None
+                    for _ in range(len(flags) + 1):
+                        try:
+                            got = tuple(evaluate(t_, env) for t_ in terms_)
+                            break
+                        except (LookupError, TypeError, ValueError) as ex_:
+                            failing = next(t_ for t_ in terms_ if _fails(t_, env))
+                            cand = [x for x in walk(failing) if isinstance(x, Sym) and x.kind == "exc" and not env[x]]
+                            if not cand:
+                                got = "<raises %s>" % type(ex_).__name__
+                                break
+                            serial = lambda x_: int(x_.name.rsplit("#", 1)[1]) if "#" in x_.name and x_.name.rsplit("#", 1)[1].isdigit() else 0
+                            env[max(cand, key=serial)] = True       # (flags are numbered in the order the try statements are entered)
+                    ent = data_.get(mm.lower(), {}).get("registers", {}).get(rr.lower())
+                    want_name = ent[0] if ent is not None else "id:%s inst:%s" % (rr.upper(), ii)
+                    addr = ent[1].get(str(ii)) if ent is not None else None
+                    want = (want_name, "0x%08X" % (int(addr, 16) if addr is not None else 0))
+                    if got != want and bad is None:
+                        bad = "model %s register %s instance %d with chip data %r: shown as %r, documented %r" % (mm, rr, ii, data_, got, want)
+        except CannotEval as e_:
+            rep.count("register look-up summary not runnable (%s): decided from its shape" % str(e_)[:60], 1)
+            bad = None
+            ex = [{x for x in walk(i[1]) if isinstance(x, Sym) and x.kind == "exc"} for i in rgi]
+            if not (bool(ex[0]) and bool(ex[1]) and not (ex[0] & ex[1])):
+                bad = "the register name and the register address are looked up under one try/except"
+        rep.check(bad is None, rule, "get_reg_data: name and address each fall back on their own (name kept when only the address is missing)",
+                  PD + ".get_reg_data", "except KeyError", "the register name and the register address do not fall back independently: when "
+                  "only the address of this instance is missing the known register name is replaced by the raw id/instance text as well "
+                  "(%s)" % bad)
     hs = [e for e in I.events if e.kind == "handler" and e.func.startswith(PD + ".get_")]
     rep.check(not hs or all(h.data[1] in ("KeyError", "LookupError", "(KeyError, IndexError)", "(KeyError, IndexError, TypeError)", "Exception") for h in hs), rule,
               "fallback handlers catch KeyError", PD, "except KeyError", "fallback handlers catch %s" % sorted({h.data[1] for h in hs}))
